@@ -71,6 +71,15 @@ def build_coq(targets, timeout=3000):
     rc, out = sh("timeout %d make -k -j%d %s" % (timeout, NPROC, " ".join(targets)), cwd=COQ, timeout=timeout + 60)
     return rc == 0, out
 
+def gen_format():
+    """regenerate coq/Gen_format.v (map keys, hint masks, CBOR type codes, buffer sizes, index width) from /repo's current sources"""
+    sys.path.insert(0, os.path.join(VERIF, "translator"))
+    import format as gen_fmt
+    try:
+        gen_fmt.generate(os.path.join(REPO, "src"), os.path.join(COQ, "Gen_format.v"))
+    except Exception as e:
+        raise CheckError("translator/format.py failed on /repo/src: %s" % e)
+
 def prove(pid, extra_props=()):
     """Build Properties_<pid>.vo's dependencies, then (re)compile the property file itself so that the
     Print Assumptions output of every theorem is captured on every run."""
@@ -87,7 +96,7 @@ def prove(pid, extra_props=()):
         cmd = "timeout 1500 coqc -R . CDNS %s.v" % pf
         rc, out = sh(cmd, cwd=COQ, timeout=1600)
         log_all += out
-        res["checker_cmd"] = "cd coq && make -j%d %s.vo && %s" % (NPROC, pf, cmd)
+        res["checker_cmd"] = (res["checker_cmd"] + " ; " if res["checker_cmd"] else "") + "cd coq && make -j%d %s.vo && %s" % (NPROC, pf, cmd)
         if rc != 0 or not ok:
             ok_all = False
         # theorem names and assumptions
@@ -379,6 +388,7 @@ TRUSTED_BASE_COMMON = [
     "Coq 8.16.1 kernel (coqc full .vo build, no -vos); vm_compute (bytecode VM) used for finite sweeps and Examples; no native_compute",
     "no Axiom/Parameter/Admitted anywhere (grep gate on every run + Print Assumptions under every property theorem)",
     "model <-> code tie: correspondence check (same scripts through harness/cpp/drv.cpp on /repo's working tree and through the OCaml extraction of the model)",
+    "model <-> code tie, second route: translator/format.py regenerates coq/Gen_format.v from /repo/src (clang 14 AST: enumerations of format_specification.h, the two BUFFER_SIZE constants, index_t) on every run; coq/Properties_format.v re-proves by computation that the model's descriptors (keys, order, signedness), hint-bit table, CBOR type codes and buffer sizes equal it",
     "extraction: ExtrOcamlBasic only (Extract Inductive bool/option/unit/list/prod/sumbool/sumor, Extract Inlined Constant andb/orb); OCaml 4.13.1; harness/ocaml/*.ml glue",
     "g++ 12.2 -std=c++14 -msse4 with ASan/UBSan; Python orchestrator, generators and oracles under harness/py",
 ]
